@@ -34,6 +34,10 @@ pub struct Cfg {
     pub paytimeout: u64,
     #[serde(default)]
     pub xpay: bool,
+    /// the MPP timeout really handed to the plugin when it is larger than the trace can express (the option is a
+    /// 64-bit number of seconds; `mpp` then carries 1_000_000 = "does not expire within the run")
+    #[serde(default)]
+    pub mpp_real: Option<u64>,
 }
 fn tru() -> bool {
     true
@@ -367,7 +371,7 @@ impl Driver {
             block_provider: Arc::new(VBlocks { real: self.watcher.clone() }),
             cltv_delta: c.sdelta,
             local_pubkey: cat::local_pubkey(),
-            mpp_timeout: Duration::from_secs(c.mpp),
+            mpp_timeout: Duration::from_secs(c.mpp_real.unwrap_or(c.mpp)),
             notification_service: Arc::new(VNotify),
             payment_provider: Arc::new(PayPaymentProvider::new(
                 Arc::clone(&rpc),
@@ -589,7 +593,7 @@ impl Driver {
                 sim::with(|s| s.height = h);
                 if let Some(w) = self.watcher.clone() {
                     // the block_added notification (in a task of its own: a watcher that blocks must not block the driver)
-                    tokio::spawn(async move { w.new_block(&crate::messages::BlockAdded { height: h }).await });
+                    tokio::spawn(async move { let blk = crate::messages::BlockAdded { height: h }; crate::await_if_future!(w.new_block(&blk)) });
                     settle().await;
                 }
                 self.line(json!({"ev":"height","h":h}));
